@@ -309,6 +309,9 @@ int dl_header(CURL *curl, zckDL *dl, char *url, int fail_no_ranges,
 int main (int argc, char *argv[]) {
     struct arguments arguments = {0};
 
+    /* Files we open must not land on a closed stdin/stdout/stderr */
+    reserve_std_fds();
+
     /* Defaults */
     arguments.log_level = ZCK_LOG_INFO;
 
